@@ -2982,8 +2982,9 @@ class SEVM:
             sha3s=ex.sha3s.copy(),
             storages=ex.storages.copy(),
             balances=ex.balances.copy(),
-            known_keys=ex.known_keys,  # pass by reference, not need to copy
-            known_sigs=ex.known_sigs,  # pass by reference, not need to copy
+            # note: vm.addr / vm.sign add their constraints only to the path that first sees a key
+            known_keys=ex.known_keys.copy(),
+            known_sigs=ex.known_sigs.copy(),
             #
             call_sequence=ex.call_sequence,  # pass by reference
         )
